@@ -20,14 +20,26 @@ Definition ledger : list ((string * string * string * string * N) * site_class) 
    (("rsass/src/css/selectors/pseudo.rs", "replace", "unwrap", "Arg :: Selector ( s . replace ( original , replacement ) . unwrap ( ) )", 1%N), Unmodelled);
    (("rsass/src/css/selectors/selector.rs", "resolve_ref", "unwrap", "compound : s . compound . append ( & self . compound ) . unwrap ( ) ,", 1%N), (Reachable "F3: `&` suffix that does not parse after the parent"));
    (("rsass/src/css/selectors/selectorset.rs", "is_root", "index", "self . s . len ( ) == 1 && self . s [ 0 ] == Selector :: default ( )", 1%N), Unmodelled);
+   (("rsass/src/error.rs", "fmt", "intarith", "match * self {", 1%N), Unmodelled);
+   (("rsass/src/error.rs", "fmt", "intarith", "if * module {", 1%N), Unmodelled);
    (("rsass/src/input/context.rs", "lock_loading", "unwrap", "pos . next ( ) . unwrap ( ) . clone ( ) ,", 1%N), Unmodelled);
    (("rsass/src/input/sourcepos.rs", "fragment", "index", "& self . source . data ( ) [ self . range ( ) ]", 1%N), Unmodelled);
    (("rsass/src/input/sourcepos.rs", "line_no", "index", "self . source . data ( ) [ 0 .. self . start ]", 1%N), Unmodelled);
+   (("rsass/src/input/sourcepos.rs", "line_no", "intarith", "+ 1", 1%N), Unmodelled);
+   (("rsass/src/input/sourcepos.rs", "line_pos", "intarith", ". map_or ( 0 , | n | n + 1 ) ;", 1%N), Unmodelled);
+   (("rsass/src/input/sourcepos.rs", "line_pos", "intarith", "self . start - start + 1", 1%N), Unmodelled);
+   (("rsass/src/input/sourcepos.rs", "line_pos", "intarith", "self . start - start + 1", 2%N), Unmodelled);
+   (("rsass/src/input/sourcepos.rs", "show_in_file", "intarith", "let ellipsis = first . line_no ( ) + 1 < second . line_no ( ) ;", 1%N), Unmodelled);
+   (("rsass/src/input/sourcepos.rs", "show_inner", "intarith", ". map_or ( 0 , | n | n + 1 ) ;", 1%N), Unmodelled);
    (("rsass/src/input/sourcepos.rs", "show_inner", "unwrap", ". unwrap ( ) ;", 1%N), Unmodelled);
    (("rsass/src/input/sourcepos.rs", "show_inner", "index", "let line = & data [ start .. end ] ;", 1%N), Unmodelled);
+   (("rsass/src/input/sourcepos.rs", "show_inner", "intarith", "lpos = self . start - start ,", 1%N), Unmodelled);
+   (("rsass/src/input/sourcepos.rs", "show_inner", "intarith", "mark = marker . to_string ( ) . repeat ( ( self . end - self . start ) . max ( 1 ) ) ,", 1%N), Unmodelled);
    (("rsass/src/input/sourcepos.rs", "opt_back", "intarith", "if self . source . data ( ) . get ( self . start - len .. self . start )", 1%N), Unmodelled);
    (("rsass/src/input/sourcepos.rs", "opt_back", "intarith", "self . start -= len ;", 1%N), Unmodelled);
    (("rsass/src/input/sourcepos.rs", "opt_in_calc", "intarith", "self . start += s . len ( ) ;", 1%N), Unmodelled);
+   (("rsass/src/input/sourcepos.rs", "opt_in_calc", "intarith", "self . end -= 1 ;", 1%N), Unmodelled);
+   (("rsass/src/input/sourcepos.rs", "opt_trail_ws", "intarith", "self . end += 1 ;", 1%N), Unmodelled);
    (("rsass/src/input/sourcepos.rs", "mock_impl", "intarith", "start : kind . len ( ) + 1 ,", 1%N), Unmodelled);
    (("rsass/src/input/sourcepos.rs", "mock_impl", "intarith", "end : line . len ( ) - 2 ,", 1%N), Unmodelled);
    (("rsass/src/output/cssbuf.rs", "start_block", "intarith", "self . indent += 2 ;", 1%N), Unmodelled);
@@ -43,15 +55,24 @@ Definition ledger : list ((string * string * string * string * N) * site_class) 
    (("rsass/src/parser/css/media.rs", "media_slash_list_no_space", "unwrap", "list . into_iter ( ) . next ( ) . unwrap ( )", 1%N), Unmodelled);
    (("rsass/src/parser/css/strings.rs", "hash_no_interpolation", "unwrap", "Ok ( ( next , input_to_str ( hash ) . unwrap ( ) ) )", 1%N), Unmodelled);
    (("rsass/src/parser/css/values.rs", "list_or_single", "unwrap", "list . into_iter ( ) . next ( ) . unwrap ( )", 1%N), Unmodelled);
+   (("rsass/src/parser/error.rs", "from", "intarith", "VerboseErrorKind :: Char ( ch ) if * ch == '\'' => {", 1%N), Unmodelled);
    (("rsass/src/parser/error.rs", "from", "unwrap", ". unwrap ( ) ;", 1%N), Unmodelled);
    (("rsass/src/parser/mod.rs", "list_or_single", "unwrap", "list . into_iter ( ) . next ( ) . unwrap ( )", 1%N), Unmodelled);
    (("rsass/src/parser/span.rs", "new_range", "macro_assert", "assert ! ( range . end <= source . data ( ) . len ( ) ) ;", 1%N), Unmodelled);
    (("rsass/src/parser/span.rs", "fragment", "index", "& self . source . data ( ) [ self . range ( ) ]", 1%N), Unmodelled);
    (("rsass/src/parser/span.rs", "location_line", "index", "self . source . data ( ) [ 0 .. self . start ]", 1%N), Unmodelled);
+   (("rsass/src/parser/span.rs", "location_line", "intarith", "+ 1", 1%N), Unmodelled);
+   (("rsass/src/parser/span.rs", "get_utf8_column", "intarith", ". map_or ( self . start + 1 , | s | self . start - s )", 1%N), Unmodelled);
+   (("rsass/src/parser/span.rs", "get_utf8_column", "intarith", ". map_or ( self . start + 1 , | s | self . start - s )", 2%N), Unmodelled);
+   (("rsass/src/parser/span.rs", "input_len", "intarith", "self . end - self . start", 1%N), Unmodelled);
+   (("rsass/src/parser/span.rs", "take", "intarith", "let end = self . start + index ;", 1%N), Unmodelled);
    (("rsass/src/parser/span.rs", "take", "macro_assert", "assert ! ( end <= self . end , ""Tried to take {index} from {self:?}"" ) ;", 1%N), Unmodelled);
+   (("rsass/src/parser/span.rs", "take_from", "intarith", "let mid = self . start + index ;", 1%N), Unmodelled);
    (("rsass/src/parser/span.rs", "take_from", "macro_assert", "assert ! ( mid <= self . end , ""Tried to take_from {index} from {self:?}"" ) ;", 1%N), Unmodelled);
+   (("rsass/src/parser/span.rs", "take_split", "intarith", "let mid = self . start + index ;", 1%N), Unmodelled);
    (("rsass/src/parser/span.rs", "take_split", "macro_assert", "assert ! ( mid <= self . end , ""Tried to take_split {index} from {self:?}"" ) ;", 1%N), Unmodelled);
    (("rsass/src/parser/span.rs", "offset", "macro_assert", "assert ! ( std :: ptr :: eq ( self . source , second . source ) ) ;", 1%N), Unmodelled);
+   (("rsass/src/parser/span.rs", "offset", "intarith", "second . start - self . start", 1%N), Unmodelled);
    (("rsass/src/parser/strings.rs", "special_function_misc", "unwrap", "args . prepend ( from_utf8 ( start . fragment ( ) ) . unwrap ( ) ) ;", 1%N), Unmodelled);
    (("rsass/src/parser/strings.rs", "special_function_misc", "unwrap", "args . append_str ( from_utf8 ( end . fragment ( ) ) . unwrap ( ) ) ;", 1%N), Unmodelled);
    (("rsass/src/parser/value.rs", "value_expression", "unwrap", "result . into_iter ( ) . next ( ) . unwrap ( )", 1%N), Unmodelled);
@@ -69,8 +90,11 @@ Definition ledger : list ((string * string * string * string * N) * site_class) 
    (("rsass/src/sass/functions/color/channels.rs", "conv", "index", "CallError :: msg ( format ! ( ""Missing element ${}."" , names [ 1 ] ) )", 1%N), Unmodelled);
    (("rsass/src/sass/functions/color/channels.rs", "conv", "index", "CallError :: msg ( format ! ( ""Missing element ${}."" , names [ 2 ] ) )", 1%N), Unmodelled);
    (("rsass/src/sass/functions/color/mod.rs", "inner", "index", "l . len ( ) == 2 && inner ( & l [ 0 ] )", 1%N), Unmodelled);
+   (("rsass/src/sass/functions/list.rs", "create_module", "intarith", "return Ok ( Value :: scalar ( i + 1 ) ) ;", 1%N), Unmodelled);
+   (("rsass/src/sass/functions/list.rs", "create_module", "intarith", "if * k == l [ 0 ] && * v == l [ 1 ] {", 1%N), Unmodelled);
    (("rsass/src/sass/functions/list.rs", "create_module", "index", "if * k == l [ 0 ] && * v == l [ 1 ] {", 1%N), Unmodelled);
    (("rsass/src/sass/functions/list.rs", "create_module", "index", "if * k == l [ 0 ] && * v == l [ 1 ] {", 2%N), Unmodelled);
+   (("rsass/src/sass/functions/list.rs", "create_module", "intarith", "return Ok ( Value :: scalar ( i + 1 ) ) ;", 2%N), Unmodelled);
    (("rsass/src/sass/functions/list.rs", "create_module", "intarith", "arg . named . get_item ( n - arg . positional . len ( ) ) . map_or (", 1%N), Unmodelled);
    (("rsass/src/sass/functions/list.rs", "create_module", "index", "Ok ( list [ n ] . clone ( ) )", 1%N), Unmodelled);
    (("rsass/src/sass/functions/list.rs", "create_module", "index", "list [ i ] = s . get ( name ! ( value ) ) ? ;", 1%N), Unmodelled);
